@@ -1867,7 +1867,7 @@ def budgets(ctx):
         return ({"generic": 80, "clustered": 60, "collinear": 60, "coincident": 80, "edges": 80, "ranges": 50,
                  "outside": 20, "tie": 50, "scale": 36, "scale_mixed": 14}, [4, 5], 40)
     return ({"generic": 400, "clustered": 300, "collinear": 300, "coincident": 400, "edges": 400, "ranges": 300,
-             "outside": 80, "tie": 250, "scale": 240, "scale_mixed": 80}, [3, 4, 5, 6], 300)
+             "outside": 80, "tie": 250, "scale": 160, "scale_mixed": 50}, [3, 4, 5, 6], 300)
 
 
 def corpus_cases(ctx):
